@@ -816,9 +816,13 @@ fn run_case(case: &Case) -> Verdict {
 
 const LITS: [&str; 12] = ["a", "b", "x y", "", "h\u{e9}llo \u{6f22}", "0", "false", "true", "handle:zzzzzzzzzzzzzzzzzzzz", "-r", "c", "1"];
 const FAKES: [&str; 4] = ["handle:zzzzzzzzzzzzzzzzzzzz", "nohandle", "", "handle:"];
-const IDX: [&str; 8] = ["0", "1", "2", "5", "-1", "abc", "", "1.0"];
+const IDX: [&str; 11] = ["0", "1", "2", "5", "-1", "abc", "", "1.0", "16", "17", "39"];
 
 fn gen_v(rng: &mut Rng, n_slots: usize) -> V {
+    if rng.chance(1, 60) {
+        // longer than 64 bytes
+        return V::Lit(format!("long-{}-{}", "abcdefghij".repeat(7), rng.below(10)));
+    }
     if n_slots > 0 && rng.chance(1, 8) {
         V::HandleOf(rng.usize(n_slots))
     } else {
@@ -852,11 +856,13 @@ fn gen_case(rng: &mut Rng) -> Case {
     let fam: [u32; 4] = [1 + rng.below(4) as u32, 1 + rng.below(4) as u32, 1 + rng.below(4) as u32, 1 + rng.below(2) as u32];
     for _ in 0..n {
         let op = if slots < 2 || (slots < 5 && rng.chance(1, 6)) {
+            // one collection in twenty is larger than 16 elements
+            let many = if rng.chance(1, 20) { 17 + rng.usize(24) } else { rng.usize(4) };
             match rng.below(4) {
-                0 => Op::Array((0..rng.usize(4)).map(|_| gen_v(rng, slots)).collect()),
+                0 => Op::Array((0..many).map(|k| if many > 4 { V::Lit(format!("e{}", k % 23)) } else { gen_v(rng, slots) }).collect()),
                 1 => Op::Map,
-                2 => Op::SetNew((0..rng.usize(4)).map(|_| gen_v(rng, slots)).collect()),
-                _ => Op::Range(rng.pick(&["0", "2", "-2", "x", "5"]).to_string(), rng.pick(&["3", "0", "2", "y", "6"]).to_string()),
+                2 => Op::SetNew((0..many).map(|k| if many > 4 { V::Lit(format!("e{}", k % 19)) } else { gen_v(rng, slots) }).collect()),
+                _ => Op::Range(rng.pick(&["0", "2", "-2", "x", "5"]).to_string(), rng.pick(&["3", "0", "2", "y", "6", "40"]).to_string()),
             }
         } else {
             let h = gen_h(rng, slots);
